@@ -368,6 +368,14 @@ func (s *Service) createCertManager(options ServiceOptions) (CertManager, error)
 		return nil, nil
 	}
 
+	// Certificates are only ever looked up on the service bound to the root
+	// path of a host. A service on a sub-path merely inherits the TLS flags of
+	// that service (and the inherited flags are part of the saved state), so it
+	// must not get, or fail to get, a certificate manager of its own.
+	if !slices.Contains(options.PathPrefixes, rootPath) {
+		return nil, nil
+	}
+
 	if options.TLSCertificatePath != "" && options.TLSPrivateKeyPath != "" {
 		return NewStaticCertManager(options.TLSCertificatePath, options.TLSPrivateKeyPath)
 	}
